@@ -184,7 +184,15 @@ static void win_gen(Ctx& ctx) {
             eval_range(ctx, lo, hi, 7);
         }
     }
-    // primes(n): length and last element for a few large n (<= 2^22+2^13 is compared completely above)
+    // nextprime's loop length is the prime gap: the primes that open a maximal gap (record gaps, largest below 2^32: 336) and a few
+    // arguments inside each of those gaps; the oracle stays Miller-Rabin, so a wrong entry in this list costs nothing
+    const int64_t gap_openers[] = {113, 523, 887, 1129, 1327, 9551, 15683, 19609, 31397, 155921, 360653, 370261, 492113, 1349533, 1357201, 2010733, 4652353, 17051707, 20831323,
+                                   47326693, 122164747, 189695659, 191912783, 387096133, 436273009, 1294268491, 1453168141, 2300942549ll, 3842610773ll, 4275912661ll};
+    for (int64_t p0 : gap_openers)
+        for (int64_t lo : {p0 - 4, p0 + 1, p0 + 160, p0 + 320}) {
+            if (!ctx.mine()) continue;
+            eval_range(ctx, lo, std::min<int64_t>(lo + 23, 0xFFFFFFFFll), 7);
+        }
 }
 
 // ------------------------------------------------------------------------------------------- random 32-bit values
